@@ -418,10 +418,15 @@ impl Mempool {
         }
 
         self.routing_work_in_mempool = 0;
+        // inputs are reserved only for the transactions that are still in the pool
+        self.utxo_map.clear();
 
         // add routing work from remaining tx
         for (_, transaction) in &self.transactions {
             self.routing_work_in_mempool += transaction.total_work_for_me;
+            for input in transaction.from.iter() {
+                self.utxo_map.insert(input.utxoset_key, 1);
+            }
         }
     }
 
